@@ -245,8 +245,8 @@ fn c03_q_fmla_string_1() {
 
 /// Two cells under one row header, then a new row header and a third cell, then BrtEndSheetData.
 #[kani::proof]
-#[kani::unwind(20)]
-fn c03_t_two_rows() {
+#[kani::unwind(5)]
+fn c03_x_two_rows() {
     let mut s: [u8; 48] = kani::any();
     let r1: u32 = kani::any();
     let r2: u32 = kani::any();
@@ -303,8 +303,8 @@ fn c03_t_two_rows() {
 
 /// Quick variant: one cell, a new row header, a second cell.
 #[kani::proof]
-#[kani::unwind(20)]
-fn c03_t_row_change() {
+#[kani::unwind(5)]
+fn c03_x_row_change() {
     let mut s: [u8; 34] = kani::any();
     let r1: u32 = kani::any();
     let r2: u32 = kani::any();
